@@ -2,6 +2,7 @@ package checks
 
 import (
 	"fmt"
+	"math"
 	"strings"
 
 	"verif/internal/fw"
@@ -51,7 +52,12 @@ func numberProducers(n float64) []producer {
 		{"shift", func() *model.N { return model.Grp(model.Bin(">>", model.Grp(model.Bin("<<", num(n), num(2))), num(2))) }, ""},
 		{"not-not", func() *model.N { return model.Un("~", model.Un("~", num(n))) }, ""},
 		{"round", func() *model.N { return model.CallN(model.BiRound, model.Bin("+", num(n), num(0.2))) }, ""},
-		{"abs", func() *model.N { return model.CallN(model.BiAbs, model.Un("-", num(n))) }, ""},
+		{"abs", func() *model.N {
+			if n < 0 {
+				return model.Un("-", model.CallN(model.BiAbs, num(n)))
+			}
+			return model.CallN(model.BiAbs, model.Un("-", num(n)))
+		}, ""},
 		{"min", func() *model.N { return model.CallN(model.BiMin, num(n), num(n+5)) }, ""},
 		{"variable", func() *model.N { return model.Id("nv") }, ""},
 		{"element", func() *model.N { return model.Idx(model.Arr(num(n)), num(0)) }, ""},
@@ -61,7 +67,9 @@ func numberProducers(n float64) []producer {
 		{"power", func() *model.N { return model.Grp(model.Bin("**", num(n), num(1))) }, ""},
 		{"modulo", func() *model.N { return model.Grp(model.Bin("%", num(n), num(n+7))) }, ""},
 	}
-	if n <= 5 {
+	// every operator application over the boundary alphabet whose (model) value is n
+	ps = append(ps, operatorProducers(n)...)
+	if n <= 5 && n >= 0 {
 		var items []*model.N
 		for i := 0; i < int(n); i++ {
 			items = append(items, num(0))
@@ -177,7 +185,7 @@ func C16(c *fw.Ctx) {
 			}
 		}})
 	}
-	for _, n := range []float64{0, 3, 1000000} {
+	for _, n := range []float64{0, 3, 1000000, -1} {
 		n := n
 		sets = append(sets, valueSet{fmt.Sprintf("number %v", n), numberProducers(n), func() *model.N { return model.Num(n) }, func() []*model.N {
 			return []*model.N{
@@ -281,4 +289,83 @@ func ctxClass(n string) string {
 		return "index-or-store"
 	}
 	return "operator"
+}
+
+// operatorProducers enumerates x op y and op x over a numeric alphabet and
+// keeps the applications whose model value is exactly n: the same number
+// coming out of every operator that can produce it.
+func operatorProducers(n float64) []producer {
+	alpha := []float64{0, 1, -1, 2, 3, 4, 5, 7, 0.5, 8, 63, 64, 65, 100, 1000, 1000000, 999999, 1000001, 2147483648, 4294967296, 9007199254740992, 1e21}
+	lit := func(f float64) *model.N {
+		if f < 0 {
+			return model.Grp(model.Un("-", model.NumT(bigLit(-f))))
+		}
+		return model.NumT(bigLit(f))
+	}
+	var out []producer
+	m := &model.Machine{}
+	perOp := map[string][]producer{}
+	var opOrder []string
+	curOp := ""
+	defer func() {}()
+	try := func(name string, mk func() *model.N) {
+		res := m.Run([]*model.N{model.ExprS(mk())})
+		if res.Err != nil || res.Unspec != "" || len(res.Values) != 1 {
+			return
+		}
+		if f, ok := res.Values[0].(float64); ok && f == n && !(f == 0 && math.Signbit(f)) {
+			if _, seen := perOp[curOp]; !seen {
+				opOrder = append(opOrder, curOp)
+			}
+			perOp[curOp] = append(perOp[curOp], producer{curOp + ":" + name, mk, ""})
+		}
+	}
+	// keep, per operator / built-in, the first three and the last three applications found
+	finish := func() []producer {
+		for _, op := range opOrder {
+			l := perOp[op]
+			if len(l) > 6 {
+				l = append(append([]producer{}, l[:3]...), l[len(l)-3:]...)
+			}
+			out = append(out, l...)
+		}
+		return out
+	}
+	for _, op := range []string{"+", "-", "*", "/", "%", "**", "&", "|", "^", "<<", ">>"} {
+		curOp = op
+		for _, a := range alpha {
+			for _, b := range alpha {
+				for _, sa := range []float64{1, -1} {
+					op, a, b, sa := op, a, b, sa
+					if a == 0 && sa < 0 {
+						continue
+					}
+					try(fmt.Sprintf("%v%s%v", sa*a, op, b), func() *model.N { return model.Grp(model.Bin(op, lit(sa*a), lit(b))) })
+				}
+			}
+		}
+	}
+	for _, a := range alpha {
+		a := a
+		curOp = "prefix"
+		try(fmt.Sprintf("~%v", a), func() *model.N { return model.Grp(model.Un("~", lit(a))) })
+		try(fmt.Sprintf("~-%v", a), func() *model.N { return model.Grp(model.Un("~", lit(-a))) })
+		try(fmt.Sprintf("-%v", a), func() *model.N { return model.Grp(model.Un("-", lit(a))) })
+		for _, bi := range []string{model.BiAbs, model.BiRound, model.BiSqrt} {
+			bi := bi
+			curOp = bi
+			try(bi+fmt.Sprint(a), func() *model.N { return model.CallN(bi, lit(a)) })
+			try(bi+fmt.Sprint(-a), func() *model.N { return model.CallN(bi, lit(-a)) })
+			try(bi+fmt.Sprint(a+0.4), func() *model.N { return model.CallN(bi, lit(a+0.4)) })
+		}
+		for _, b := range alpha {
+			b := b
+			for _, bi := range []string{model.BiMin, model.BiMax, model.BiPow} {
+				bi := bi
+				curOp = bi
+				try(fmt.Sprintf("%s(%v,%v)", bi, a, b), func() *model.N { return model.CallN(bi, lit(a), lit(b)) })
+			}
+		}
+	}
+	return finish()
 }
